@@ -247,13 +247,18 @@ def add_unreachable(spec, rng, k):
     return t
 
 
-def anchor_probe_dfa(rng):
+def anchor_probe_dfa(rng, dense=False):
     """A large DFA with many Nerode classes that are separated late: N pairwise distinguishable *anchor* states (a counter
     on symbol c) and M reachable *probe* states that differ from each other only in WHICH anchors their a- and
     b-transitions point to; the probes are the leaves of a 4-ary tree of router states rooted at q0.  Any
     partition-refinement shortcut that confuses class identities (numbering, hashing, ordering) merges two probes."""
     N = rng.randint(12, 24)
     M = rng.randint(30, 90)
+    if dense:
+        # every (a-target, b-target) combination of the anchors occurs among the probes, so whatever numbers, hashes or
+        # positions a refinement gives the anchor classes, every pair of successor-class pairs is present
+        N = rng.randint(12, 15)
+        M = N * N
     anchors = ['a%d' % i for i in range(N)]
     probes = ['p%d' % k for k in range(M)]
     Sigma = ['a', 'b', 'c', 'd']
@@ -269,7 +274,7 @@ def anchor_probe_dfa(rng):
                 break
         seen.add(ij)
         delta += [[p, 'a', ij[0]], [p, 'b', ij[1]], [p, 'c', 'sink'], [p, 'd', 'sink']]
-    if rng.random() < 0.5:
+    if rng.random() < 0.5 and not dense:
         # variant: the probes form a chain on symbol d (instead of hanging under a router tree)
         delta = [t for t in delta if not (t[0] in set(probes) and t[1] == 'd')]
         for k, p in enumerate(probes):
